@@ -117,6 +117,26 @@ def load_known_findings():
     return out
 
 
+def _descendants(root):
+    """pids of every live descendant of `root` (from /proc)"""
+    kids = {}
+    for d in os.listdir("/proc"):
+        if d.isdigit():
+            try:
+                with open(f"/proc/{d}/stat") as f:
+                    st = f.read()
+                ppid = int(st[st.rindex(")") + 2:].split()[1])
+                kids.setdefault(ppid, []).append(int(d))
+            except (OSError, ValueError):
+                pass
+    out, todo = [], [root]
+    while todo:
+        for k in kids.get(todo.pop(), []):
+            out.append(k)
+            todo.append(k)
+    return out
+
+
 class Check:
     def __init__(self, pid, tier, seed, technique=""):
         self.pid = pid
@@ -138,6 +158,35 @@ class Check:
         self.extra = {}
         self.known = [k for k in load_known_findings() if k.get("property") == pid]
         self._nrep = 0
+        self._arm_watchdog()
+
+    # ---- fail-safe: a check that does not come back is an alarm, not a hang ----
+    def _arm_watchdog(self):
+        """A change to the implementation can make a call on some corpus input never return (e.g. a walk
+        over a cyclic AST).  The harnesses bound individual calls where they can; this is the backstop:
+        after VERIF_WALL_LIMIT seconds (default 40 min quick, 8 h thorough) the check reports that the
+        property is no longer shown, kills its worker processes and exits 1."""
+        import signal
+        import threading
+        if threading.current_thread() is not threading.main_thread():
+            return
+        limit = int(os.environ.get("VERIF_WALL_LIMIT", "2400" if self.tier == "quick" else "28800"))
+
+        def on_alarm(signum, frame):
+            what = (f"the check did not complete within {limit} s of wall time: a call into the implementation "
+                    f"(or the harness) does not return on some input of the corpus")
+            self.oblige(f"the check completes within {limit} s of wall time", False, what)
+            self.violation(what, found_input=False,
+                           extra={"obligation_details": self.obligations[-6:], "note": "watchdog"})
+            for pid in _descendants(os.getpid()):
+                try:
+                    os.kill(pid, signal.SIGKILL)
+                except OSError:
+                    pass
+            os._exit(1)
+
+        signal.signal(signal.SIGALRM, on_alarm)
+        signal.alarm(limit)
 
     # ---- obligations ----
     def oblige(self, name, ok, detail=""):
